@@ -304,6 +304,8 @@ def _real_matprod(c, a, p):
     r, s = p['r'], p['s']
     A = [a[0][i * (len(a[0]) // r):(i + 1) * (len(a[0]) // r)] for i in range(r)]
     B = [a[1][i * (len(a[1]) // s):(i + 1) * (len(a[1]) // s)] for i in range(s)]
+    if p.get('same'):
+        B = A       # the very same list object for both arguments
     C = c.rt.matrix_prod(A, B)
     return [[v for row in C for v in row]]
 
@@ -605,7 +607,10 @@ class Gen:
                         if not opts:
                             continue
                         y, r, c_ = rng.choice(opts)
-                        ok = self.try_op(opn, [a, y], {'r': r, 's': c_}, ['L'])
+                        if n == 4 and rng.random() < 0.4:
+                            ok = self.try_op(opn, [a, a], {'r': 2, 's': 2, 'same': True}, ['L'])     # square of a 2x2 matrix
+                        else:
+                            ok = self.try_op(opn, [a, y], {'r': r, 's': c_}, ['L'])
                     else:
                         cands = [y for y in L if len(self.val[y]) == len(self.val[a])]
                         if not self.val[a]:
